@@ -167,7 +167,7 @@ impl SimpleStats {
             final(self).n_tx_total_fee == old(self).n_tx_total_fee, final(self).n_tx_total_volume == old(self).n_tx_total_volume,
             final(self).tx_biggest_value == old(self).tx_biggest_value, final(self).tx_biggest_size == old(self).tx_biggest_size,
             final(self).t_between_blocks == old(self).t_between_blocks, final(self).last_timestamp == old(self).last_timestamp,
-//@before `if !self.n_tx_types.contains_key(&pattern) {`
+//@before `if !self.n_tx_types`
         assert(pkey(pattern) == stat_key(script_pattern));
         let ghost b0 = choose|b: int| counts_below(self.n_tx_types.view(), b) && b < u64::MAX;
 //@end
@@ -248,7 +248,7 @@ impl Callback for SimpleStats {
                 self.n_valid_blocks == old(self).n_valid_blocks + 1, self.n_tx == old(self).n_tx + block.tx_count.value,
                 self.block_sizes@ == old(self).block_sizes@.push(block.size),
                 self.t_between_blocks == old(self).t_between_blocks, self.last_timestamp == old(self).last_timestamp,
-//@before `if tx.value.is_coinbase() {`
+//@before `if tx.value.`
             let ghost j = it.index@ as int;
             let ghost a1 = acc_of(*self);
             assert(*tx == block.txs@[j]);
@@ -279,7 +279,7 @@ impl Callback for SimpleStats {
                     self.t_between_blocks == old(self).t_between_blocks, self.last_timestamp == old(self).last_timestamp,
                     self.n_tx_inputs == a2.n_in, self.n_tx_outputs == a2.n_out, self.n_tx_total_fee == a2.fee,
                     self.n_tx_total_volume == a1.volume, self.tx_biggest_value == a1.big_val, self.tx_biggest_size == a1.big_size,
-//@before `self.process_tx_pattern(o.script.pattern.clone(), block_height, tx.hash, i as u32);`
+//@before `self.process_tx_pattern`
                 assert(counts_below(self.n_tx_types.view(), b0 + total_outs(block.txs@, j) + i));
                 assert(*o == outs[i as int]);
                 assert(sum_values(outs, i + 1) == sum_values(outs, i as int) + outs[i as int].out.value);
